@@ -21,7 +21,7 @@ def run(ctx):
     ctx.extra.update({"u2_runs": s0["runs"], "frag_runs": s1["runs"], "small_runs": s2["runs"], "reader_runs": s3["runs"],
                       "delivered_package_kinds": s1["kinds"]})
     ctx.assumptions += [
-        "responses are judged responses: at least one package reaches the consumer, a DONE with status 0 only as last package (DESIGN.md C02/C03 unspecified region); no tokenless packages, no header-only packets inside a response",
+        "a DONE with status 0 occurs only as the last package of a response; no tokenless packages (unknown tokens swallow the rest of the message by design). Header-only packets inside a response and as its EOM packet are part of the packetisations",
         "'same field values' = equal hash of a complete reflective dump of the delivered package (all fields, exported or not)",
         "server-side package kinds generated: DONE/DONEPROC/DONEINPROC, EED, ENVCHANGE, MSG, RETURNSTATUS, ROWFMT2+ROW, PARAMFMT(2)+PARAMS, ORDERBY2 over all data types with a Go mapping (BLOB excluded)"]
     return ctx.finish(rule="U1 exhaustive: all responses of <=3 packages of length <=2(3), all packetisations with bodies 1..3, 2 rounds")
